@@ -84,6 +84,7 @@ pub const PREFILL: &[u8] = b"PRE";
 
 /// One encoder case: run, judge.  Err = violation description.
 pub fn enc_case(input: &[u8], pieces: &[Piece], limits: Limits, prefill: bool, obs: &mut Obs) -> Result<(), String> {
+    set_breadcrumb(format!("case: {}\n", CaseId { side: "enc", limits, data: input, pieces, prefill }.render()).as_bytes());
     let r = catch(|| -> Result<(), String> {
         let out = run_encode(input, pieces, limits, if prefill { PREFILL } else { &[] }, obs)?;
         judge_encoding(input, &out, limits)
@@ -99,6 +100,7 @@ pub fn enc_case(input: &[u8], pieces: &[Piece], limits: Limits, prefill: bool, o
 pub fn dec_case(encoded: &[u8], pieces: &[Piece], limits: Limits, prefill: bool, obs: &mut Obs) -> Result<bool, String> {
     let (first, later) = limits_of(limits);
     let want = refcodec::decode(encoded, first, later);
+    set_breadcrumb(format!("case: {}\n", CaseId { side: "dec", limits, data: encoded, pieces, prefill }.render()).as_bytes());
     let r = catch(|| run_decode(encoded, pieces, limits, if prefill { PREFILL } else { &[] }, obs));
     owning_iovec::verif::drain_quarantine();
     match r {
